@@ -227,24 +227,50 @@ func (c *ShipConnection) endHandshakeWithError(err error) {
 func (c *ShipConnection) setHandshakeTimer(timerType timeoutTimerType, duration time.Duration) {
 	c.stopHandshakeTimer()
 
-	c.setHandshakeTimerRunning(true)
-	c.setHandshakeTimerType(timerType)
+	// every armed timer has a stop channel of its own with room for the stop token: a stop cannot get
+	// lost while the timer goroutine is not waiting yet, and an expired timer can tell whether it
+	// still is the armed one
+	stopChan := make(chan struct{}, 1)
+
+	c.handshakeTimerMux.Lock()
+	c.handshakeTimerRunning = true
+	c.handshakeTimerType = timerType
+	c.handshakeTimerStopChan = stopChan
+	c.handshakeTimerMux.Unlock()
 
 	go func() {
 		select {
-		case <-c.handshakeTimerStopChan:
+		case <-stopChan:
 			return
 		case <-time.After(duration):
-			c.setHandshakeTimerRunning(false)
+			if !c.handshakeTimerExpired(stopChan) {
+				return
+			}
 			c.handleState(true, nil)
 			return
 		}
 	}()
 }
 
-// stop the handshake timer and close the channel
+// an expired timer delivers its timeout only if it is still the armed one and was not stopped
+func (c *ShipConnection) handshakeTimerExpired(stopChan chan struct{}) bool {
+	c.handshakeTimerMux.Lock()
+	defer c.handshakeTimerMux.Unlock()
+
+	if !c.handshakeTimerRunning || c.handshakeTimerStopChan != stopChan {
+		return false
+	}
+
+	c.handshakeTimerRunning = false
+	return true
+}
+
+// stop the handshake timer
 func (c *ShipConnection) stopHandshakeTimer() {
-	if !c.getHandshakeTimerRunning() {
+	c.handshakeTimerMux.Lock()
+	defer c.handshakeTimerMux.Unlock()
+
+	if !c.handshakeTimerRunning {
 		return
 	}
 
@@ -252,7 +278,7 @@ func (c *ShipConnection) stopHandshakeTimer() {
 	case c.handshakeTimerStopChan <- struct{}{}:
 	default:
 	}
-	c.setHandshakeTimerRunning(false)
+	c.handshakeTimerRunning = false
 }
 
 func (c *ShipConnection) setHandshakeTimerRunning(value bool) {
